@@ -665,8 +665,51 @@ def selftest():
     return 'spec/builder/key examples ok; .w on the StringIO channel == kg_write; .r consumes the StringIO channel'
 
 
+FILE_FIRST = ['"é"', '"日本"', '"a"', '0cé', '[1 "é"]', '1', '-2.5', ':foo', '"x""y"', '["ab" [0cü]]']
+FILE_SECOND = ['1', '"ab"', '[1 2]', '"é"', ':{[1 2]}']
+
+
+def file_pairs(rep):
+    """Two values written one after the other (separated by a blank) to a real UTF-8 file and read back with two .r()
+    calls: the second read starts where the first object ended (the in-memory channels of the main part count
+    characters like the reader does; a file channel counts bytes).  Complete product FILE_FIRST x FILE_SECOND."""
+    import os
+    from klongpy import KlongInterpreter
+    d = runner.scratch_dir()
+    n = 0
+    for a in FILE_FIRST:
+        for b in FILE_SECOND:
+            n += 1
+            path = os.path.join(d, 'c11_pair_%d.txt' % n)
+            k = KlongInterpreter()
+            try:
+                with runner.watchdog(CASE_TIMEOUT):
+                    k('a::%s;b::%s' % (a, b))
+                    k('c::.oc("%s");.tc(c);.w(a);.d(" ");.w(b);.cc(c)' % path)
+                    k('i::.ic("%s");.fc(i)' % path)
+                    got = [cn(k('.r()')), cn(k('.r()'))]
+                    want = [cn(k('a')), cn(k('b'))]
+                    obs = 'read [%s ; %s]' % (show(got[0]), show(got[1]))
+            except runner.CaseTimeout:
+                obs, got, want = 'did not terminate', None, 0
+            except Exception as e:      # noqa: BLE001
+                obs, got, want = 'exc:' + type(e).__name__, None, 0
+            if got != want:
+                rep.violation('file: .w(%s);.d(" ");.w(%s) then .r();.r()' % (a, b), obs, 'the two values in order',
+                              case={'part': 'file', 'a': a, 'b': b}, group='consecutive-reads-from-a-file',
+                              snippet="from klongpy import KlongInterpreter\nk = KlongInterpreter()\n"
+                                      "k('a::%s;b::%s')\nk('c::.oc(\"/tmp/p.txt\");.tc(c);.w(a);.d(\" \");.w(b);.cc(c)')\n"
+                                      "k('i::.ic(\"/tmp/p.txt\");.fc(i)')\nprint(k('.r()'), k('.r()'))\n" % (a, b))
+            try:
+                os.remove(path)
+            except OSError:
+                pass
+    return n
+
+
 def run(cfg):
     rep = runner.Report('C11', 'exploration')
+    n_pairs = file_pairs(rep)
     msg = selftest()
     items, levels = work_items(cfg)
     hangs = multiprocessing.get_context('fork').Value('i', 0)       # shared with the forked workers
@@ -698,6 +741,7 @@ def run(cfg):
     rep.coverage = {
         'evaluations': total.get('evaluations', 0),
         'values': total.get('values', 0),
+        'value_pairs_through_a_utf8_file': n_pairs,
         'distinct_values': dv,
         'distinct_nontrivial': dn,
         'values_by_class': dict(sorted(total.get('by_class', {}).items())),
